@@ -551,18 +551,27 @@ def inject_exec_overlay(scratch):
         fh.write("\n#[cfg(any(kani, verif_replay))]\n#[path = \"server/verif_overlay_exec.rs\"]\nmod verif_overlay_exec;\n")
 
 
-def inject_dispatch_overlay(scratch):
-    """EXPERIMENT (not registered, see experiments/README.md).  Client dispatch (write side): harness as a child module of `client`; the client in-flight
-    table runs over the models (as for the table harnesses); under cfg(kani) only, tokio's mpsc in
-    client.rs (request queue) and cancellations.rs is the waker-less array model."""
+def inject_dispatch_overlay(scratch, src_dir="experiments"):
+    """Client dispatch (write side): harness as a child module of `client`, in a scratch copy that
+    has NOT had the table overlays injected (it swaps tokio's oneshot too, which the table
+    harnesses use for real).  FnvHashMap / DelayQueue = models (kani and replay); tokio mpsc and
+    oneshot = models of verif_env_disp.rs under cfg(kani) only (native replay: real tokio)."""
+    cfg = "any(kani, verif_replay)"
+    _common_inject(scratch, cfg)
     tsrc = os.path.join(scratch.repo, "tarpc", "src")
-    if "verif_overlay_cift" not in open(os.path.join(tsrc, "client", "in_flight_requests.rs")).read():
-        inject_client_table_overlay(scratch)
-    shutil.copy(os.path.join(VERIF, "experiments", "tarpc_overlay_disp.rs"), os.path.join(tsrc, "client", "verif_overlay_disp.rs"))
-    _swap(os.path.join(tsrc, "client.rs"), [("use tokio::sync::{mpsc, oneshot};", "use tokio::sync::oneshot;\n#[cfg(not(kani))]\nuse tokio::sync::mpsc;\n#[cfg(kani)]\nuse crate::verif_env::mpsc;")])
-    cf = os.path.join(tsrc, "cancellations.rs")
-    if "crate::verif_env::mpsc" not in open(cf).read():
-        _swap(cf, [("use tokio::sync::mpsc;", "#[cfg(not(kani))]\nuse tokio::sync::mpsc;\n#[cfg(kani)]\nuse crate::verif_env::mpsc;")])
+    shutil.copy(os.path.join(VERIF, src_dir, "verif_env_disp.rs"), os.path.join(tsrc, "verif_env_disp.rs"))
+    shutil.copy(os.path.join(VERIF, src_dir, "tarpc_overlay_disp.rs"), os.path.join(tsrc, "client", "verif_overlay_disp.rs"))
+    with open(os.path.join(tsrc, "lib.rs"), "a") as fh:
+        fh.write("\n#[cfg(kani)]\n#[path = \"verif_env_disp.rs\"]\npub(crate) mod verif_env_disp;\n")
+    f = os.path.join(tsrc, "client", "in_flight_requests.rs")
+    _swap(f, [("use fnv::FnvHashMap;", "#[cfg(not(%s))]\nuse fnv::FnvHashMap;\n#[cfg(%s)]\nuse crate::verif_env::FnvHashMap;" % (cfg, cfg)),
+              ("    collections::hash_map,\n", ""),
+              ("use tokio_util::time::delay_queue::{self, DelayQueue};",
+               "#[cfg(not(%s))]\nuse tokio_util::time::delay_queue::{self, DelayQueue};\n#[cfg(%s)]\nuse crate::verif_env::delay_queue::{self, DelayQueue};\n"
+               "#[cfg(not(%s))]\nuse std::collections::hash_map;\n#[cfg(%s)]\nuse crate::verif_env::hash_map;" % (cfg, cfg, cfg, cfg)),
+              ("use tokio::sync::oneshot;", "#[cfg(not(kani))]\nuse tokio::sync::oneshot;\n#[cfg(kani)]\nuse crate::verif_env_disp::oneshot;")])
+    _swap(os.path.join(tsrc, "client.rs"), [("use tokio::sync::{mpsc, oneshot};", "#[cfg(not(kani))]\nuse tokio::sync::{mpsc, oneshot};\n#[cfg(kani)]\nuse crate::verif_env_disp::{mpsc, oneshot};")])
+    _swap(os.path.join(tsrc, "cancellations.rs"), [("use tokio::sync::mpsc;", "#[cfg(not(kani))]\nuse tokio::sync::mpsc;\n#[cfg(kani)]\nuse crate::verif_env_disp::mpsc;")])
     with open(os.path.join(tsrc, "client.rs"), "a") as fh:
         fh.write("\n#[cfg(any(kani, verif_replay))]\n#[path = \"client/verif_overlay_disp.rs\"]\nmod verif_overlay_disp;\n")
 
